@@ -35,6 +35,30 @@ def fontblob(path):
         return None
 
 
+def strip_subboxes(data):
+    """a Glat-3 font with every glyph's sub-box bitmap cleared and the sub-box records dropped: bounding octaboxes only"""
+    from props import fontkit as K
+    tb = K.font_tables(data)
+    go, gl = tb[b'Gloc']; ao, al = tb[b'Glat']
+    ver, flags, na = struct.unpack('>IHH', data[go:go + 8])
+    if struct.unpack('>I', data[ao:ao + 4])[0] < 0x00030000 or (struct.unpack('>I', data[ao + 4:ao + 8])[0] >> 27):
+        return None                                      # no octaboxes, or compressed
+    w = 4 if flags & 1 else 2
+    n = (gl - 8 - (2 * na if flags & 2 else 0)) // w - 1
+    offs = [struct.unpack('>I' if w == 4 else '>H', data[go + 8 + w * i:go + 8 + w * i + w])[0] for i in range(n + 1)]
+    glat, noffs = bytearray(data[ao:ao + 8]), []
+    for i in range(n):
+        blk = data[ao + offs[i]:ao + offs[i + 1]]
+        noffs.append(len(glat))
+        if len(blk) >= 6:
+            num = bin(struct.unpack('>H', blk[:2])[0]).count('1')
+            blk = b'\x00\x00' + blk[2:6] + blk[6 + 8 * num:]
+        glat += blk
+    noffs.append(len(glat))
+    gloc = data[go:go + 8] + b''.join(struct.pack('>I' if w == 4 else '>H', o) for o in noffs) + data[go + 8 + w * (n + 1):go + gl]
+    return K.replace_table(K.replace_table(data, b'Glat', bytes(glat)), b'Gloc', gloc)
+
+
 def synth_cmap_fonts(rng, n, tmp):
     """fonts whose character map has format 4 and format 12 subtables with group boundaries at the interesting code points"""
     out = []
@@ -100,6 +124,14 @@ def run(chk):
         groups.append(('synthetic cmap on ' + src, g))
     # the strings the repository itself tests each font with (whole lines of its comparison corpus), lazily loaded against preloaded faces:
     # glyphs that shaping touches only indirectly (collision exclusion glyphs, pseudo glyphs) are loaded by different routes
+    # a collision font whose glyphs have bounding octaboxes but no sub-boxes (the preloading constructor reads the octaboxes in the same
+    # loop as the sub-boxes): F33
+    nosub = {}
+    for font in ('Awami_test.ttf',) + (('AwamiNastaliq-Regular.ttf',) if thorough else ()):
+        sd = strip_subboxes(open(os.path.join(vlib.REPO, 'tests/fonts', font), 'rb').read())
+        if sd:
+            nosub[font] = os.path.join(tmp, 'nosub_' + font)
+            open(nosub[font], 'wb').write(sd)
     for font in S.FONTS:
         _, lines, _ = S.seeds(vlib.REPO, font)
         collides = font.startswith('Awami')
@@ -113,6 +145,11 @@ def run(chk):
             for (o, sm) in ((0, 'file'), (2, 'file'), (7, 'cb'), (4, 'cb')):
                 g.append(len(cases)); cases.append('z%d.%d%s api %s %d %s - %s' % (len(groups), o, sm, font, o, sm, ' '.join(ops)))
             groups.append((font + ' corpus lines', g))
+            if font in nosub and b < 160:
+                g = []
+                for (o, sm) in ((0, 'file'), (2, 'file')):
+                    g.append(len(cases)); cases.append('zn%d.%d%s api %s %d %s - %s' % (len(groups), o, sm, nosub[font], o, sm, ' '.join(ops)))
+                groups.append((font + ' without sub-boxes, corpus lines', g))
     _, il, _ = vlib.run_pair(None, hexe, cases, timeout=3000)
     classes, dist = set(), {}
     for font, g in groups:
